@@ -648,6 +648,70 @@ func init() {
 	reg("(*strings.Builder).Grow", func(e *Engine, a []value) value { return nil })
 	reg("(*strings.Builder).copyCheck", func(e *Engine, a []value) value { return nil })
 
+	// ---- errors.As (the real one is built on reflectlite.Value, which is not modelled) ----
+	reg("errors.As", func(e *Engine, a []value) value {
+		err, _ := a[0].(Iface)
+		tgt, _ := a[1].(Iface)
+		pt, isPtr := tgt.t.(*types.Pointer)
+		cell, _ := tgt.v.(*value)
+		if tgt.t == nil || !isPtr || cell == nil {
+			panic(targetPanic{v: "errors: target must be a non-nil pointer"})
+		}
+		want := pt.Elem()
+		wantIface, _ := want.Underlying().(*types.Interface)
+		method := func(x Iface, name string) *ssa.Function {
+			ms := e.prog.MethodSets.MethodSet(x.t)
+			for i := 0; i < ms.Len(); i++ {
+				if ms.At(i).Obj().Name() == name {
+					return e.prog.MethodValue(ms.At(i))
+				}
+			}
+			return nil
+		}
+		var walk func(x Iface, depth int) bool
+		walk = func(x Iface, depth int) bool {
+			if depth > 32 {
+				e.abort("UNSUPPORTED errors.As chain deeper than 32")
+			}
+			for x.t != nil {
+				if wantIface != nil {
+					if e.implements(x.t, wantIface, want) {
+						*cell = x
+						return true
+					}
+				} else if types.Identical(x.t, want) {
+					*cell = copyVal(x.v)
+					return true
+				}
+				if m := method(x, "As"); m != nil && m.Signature.Params().Len() == 1 && m.Signature.Results().Len() == 1 {
+					if r, ok := e.callFn(m, []value{x.v, tgt}, nil, nil).(bool); ok && r {
+						return true
+					}
+				}
+				m := method(x, "Unwrap")
+				if m == nil || m.Signature.Params().Len() != 0 || m.Signature.Results().Len() != 1 {
+					return false
+				}
+				r := e.callFn(m, []value{x.v}, nil, nil)
+				switch r := r.(type) {
+				case Iface:
+					x = r
+				case Slice:
+					for i := 0; i < r.len; i++ {
+						if c, ok := r.arr[r.off+i].(Iface); ok && c.t != nil && walk(c, depth+1) {
+							return true
+						}
+					}
+					return false
+				default:
+					return false
+				}
+			}
+			return false
+		}
+		return walk(err, 0)
+	})
+
 	// ---- reflectlite (only what errors.Is needs) ----
 	reg("internal/reflectlite.TypeOf", func(e *Engine, a []value) value {
 		return Iface{e.pkgType("internal/reflectlite", "rtype"), rtypeVal{a[0].(Iface).t}}
